@@ -197,7 +197,7 @@ WS = [" ", " ", " ", "\n", "\t", "  ", "\r\n", " \n ", "\f"]
 INNERS = ["", "click", "é ü 中", "a &amp; b", "(415) 735-4488", "lemonde"]
 TEXTS = ["", " ", "\n", "Ural Mountains http://www.thisurlshouldnotmatch.com, ", "é\xa0ü 中", "&amp; &#x2F; &quot;", 'a href="http://no.fr"', "ſ K İ", " ", "href=/no "]
 NOHREF = ["<p>", "</p>", '<b class="x">', "<br/>", '<a name="top">', "<a>", '<a v-href="favori.getPoi().path">', '<a class="favori-link" :href="p">', '<a data-href="/no">',
-          '<abbr title="t">', "<article>", '<aside class="a href">', '<img src="http://b.org/i.png">', '<link rel="stylesheet" href="/s.css">', "</a>", '<a\nclass="x">', "<A HREFX=/no>"]
+          '<abbr title="t">', "<article>", '<aside class="a href">', '<img src="http://b.org/i.png">', '<link rel="stylesheet" href="/s.css">', "</a>", '<a\nclass="x">', "<A HREFX=/no>", '<a name="n" title="see href=/decoy">']
 SCRIPT_OPEN = ["<script>", '<script type="text/javascript">', "<SCRIPT>", '<script nomodule type="text/javascript">', "<script\n>", '<script src="x.js" async>']
 SCRIPT_CLOSE = ["</script>", "</script>", "</SCRIPT>"]
 JS_TEXT = ["console.log('", "')", "if (a<b) {}", 'var s = "</a>";', "\n", "// é <", "x = '<a href=' + u + '>';"]
@@ -461,7 +461,8 @@ def node_desc(nodes):
             inner = node_desc([m for m in n[1]["body"]])
             d.append("script[" + inner + "]")
         elif n[0] == "n":
-            d.append("hrefless-tag")
+            # an anchor WITHOUT href whose quoted attribute value contains ' href=' is its own mechanism class
+            d.append("hrefless-anchor(attr-value-contains-href=)" if re.match(r"(?i)<a\s", n[1]) and re.search(r"""["'][^"'>]*\shref=""", n[1]) else "hrefless-tag")
         elif n[0] == "x":
             d.append("raw:" + n[2])
         else:
